@@ -45,10 +45,10 @@ MulAcc(a, b, j, acc) == IF j > Len(b) THEN acc
    ELSE MulAcc(a, b, j+1, BAddDef(acc, Canon(Rev(MulSmallLE(Rev(a), b[j], 1, 0, <<>>)) \o Zeros(Len(b) - j))))
 BMulDef(a, b) == MulAcc(a, b, 1, <<>>)
 \* ---- remainder: bit-serial long division ----
-Dbl(r) == BAddDef(r, r)
+BDbl(r) == BAddDef(r, r)
 RedStep(r, m) == IF BGeqDef(r, m) THEN BSubDef(r, m) ELSE r
 RECURSIVE ModBits(_,_,_,_)
-ModBits(r, byte, b, m) == IF b < 0 THEN r ELSE ModBits(RedStep(BAddDef(Dbl(r), IF (byte \div (2^b)) % 2 = 1 THEN <<1>> ELSE <<>>), m), byte, b-1, m)
+ModBits(r, byte, b, m) == IF b < 0 THEN r ELSE ModBits(RedStep(BAddDef(BDbl(r), IF (byte \div (2^b)) % 2 = 1 THEN <<1>> ELSE <<>>), m), byte, b-1, m)
 RECURSIVE ModBytes(_,_,_,_)
 ModBytes(r, a, j, m) == IF j > Len(a) THEN r ELSE ModBytes(ModBits(r, a[j], 7, m), a, j+1, m)
 BModDef(a, m) == ModBytes(<<>>, a, 1, m)
